@@ -263,7 +263,8 @@ theorem buildEnvelopeClass_head (d : Definitions) (bm : BMessage) (pm : PtMessag
       exact ⟨by rw [show env.qname = q from h1], h2, h3⟩
 
 theorem buildEnvelopeFault_head (d : Definitions) (po : PtOperation) (env env' : Cls)
-    (h : buildEnvelopeFault d po env = .ok env') : sameHead env env' ∧ env'.attrs = env.attrs := by
+    (h : buildEnvelopeFault d po env = .ok env') :
+    sameHead env env' ∧ env'.attrs = env.attrs.map optionalUnlessBody := by
   unfold buildEnvelopeFault at h
   split at h
   · cases h
@@ -276,7 +277,8 @@ theorem buildEnvelopeFault_head (d : Definitions) (po : PtOperation) (env env' :
       simp [sameHead]
 
 theorem withFault_head (d : Definitions) (po : PtOperation) (isOut : Bool) (env env' : Cls)
-    (h : withFault d po isOut env = .ok env') : sameHead env env' ∧ env'.attrs = env.attrs := by
+    (h : withFault d po isOut env = .ok env') :
+    sameHead env env' ∧ env'.attrs = if isOut then env.attrs.map optionalUnlessBody else env.attrs := by
   unfold withFault at h
   cases isOut with
   | false => simp at h; subst h; exact ⟨sameHead_refl _, rfl⟩
@@ -800,7 +802,7 @@ theorem replaceBody_find (body' : Cls) (l : List Cls) (body : Cls) (hn : body'.n
 the Body entries all become optional and a `Fault` entry in the envelope namespace is appended -/
 theorem buildEnvelopeFault_spec (d : Definitions) (po : PtOperation) (env env' : Cls)
     (h : buildEnvelopeFault d po env = .ok env') :
-    env'.attrs = env.attrs ∧
+    env'.attrs = env.attrs.map optionalUnlessBody ∧
     ∃ body body' fq fault, findInner env ws!"Body" = some body ∧ findInner env' ws!"Body" = some body' ∧
       body'.attrs = (body.attrs ++ [buildAttr ws!"Fault" fq (forward := true) (ns := env.ns)]).map setMin0 ∧
       body'.inner = body.inner ++ [fault] ∧
@@ -820,7 +822,7 @@ theorem buildEnvelopeFault_spec (d : Definitions) (po : PtOperation) (env env' :
       have hbn : body.name = ws!"Body" := by simpa using List.find?_some hb
       refine ⟨by simp, body, b', fq, fault, hb, ?_, h1, h2, h3⟩
       unfold findInner
-      simp only [Cls.setInner_inner]
+      simp only [Cls.setAttrs_inner, Cls.setInner_inner]
       exact replaceBody_find b' env.inner body (hn.trans hbn) hb
 
 end Xs.Wsdl
